@@ -149,7 +149,8 @@ func in(needle interface{}, array interface{}) bool {
 	case reflect.Map:
 		n := reflect.ValueOf(needle)
 		if !n.IsValid() {
-			panic(fmt.Sprintf("cannot use %T as index to %T", needle, array))
+			// nil is a member of no map, as it is of no array.
+			return false
 		}
 		value := v.MapIndex(n)
 		if value.IsValid() {
